@@ -228,13 +228,17 @@ func (d *Decoder) unmarshal(val reflect.Value, tagType byte) error {
 			val.SetBytes(ba)
 		} else if vt.Kind() == reflect.Slice {
 			switch ve := vt.Elem(); ve.Kind() {
-			case reflect.Int8, reflect.Uint8:
+			case reflect.Bool, reflect.Int8, reflect.Uint8:
 				length := int(aryLen)
 				if val.Cap() < length {
 					val.Set(reflect.MakeSlice(vt, length, length))
 				}
 				val.SetLen(length)
 				switch ve.Kind() {
+				case reflect.Bool:
+					for i := 0; i < length; i++ {
+						val.Index(i).SetBool(ba[i] != 0)
+					}
 				case reflect.Int8:
 					for i := 0; i < length; i++ {
 						val.Index(i).SetInt(int64(int8(ba[i])))
@@ -268,7 +272,7 @@ func (d *Decoder) unmarshal(val reflect.Value, tagType byte) error {
 			return errors.New("cannot parse TagIntArray to " + vt.String() + ", length not match")
 		} else if k := vt.Kind(); k != reflect.Slice && k != reflect.Array {
 			return errors.New("cannot parse TagIntArray to " + vt.String() + ", it must be a slice")
-		} else if tk := val.Type().Elem().Kind(); tk != reflect.Int && tk != reflect.Int32 {
+		} else if tk := val.Type().Elem().Kind(); tk != reflect.Int && tk != reflect.Int32 && tk != reflect.Uint32 {
 			return errors.New("cannot parse TagIntArray to " + vt.String())
 		}
 
@@ -281,7 +285,11 @@ func (d *Decoder) unmarshal(val reflect.Value, tagType byte) error {
 			if err != nil {
 				return err
 			}
-			buf.Index(i).SetInt(int64(value))
+			if elem := buf.Index(i); elem.Kind() == reflect.Uint32 {
+				elem.SetUint(uint64(uint32(value)))
+			} else {
+				elem.SetInt(int64(value))
+			}
 		}
 		if vt.Kind() == reflect.Slice {
 			val.Set(buf)
